@@ -467,67 +467,108 @@ func (g *grammarCtx) peekedBeforeNext(r *RuleResult, sides map[string]bool) {
 			r.OK("next() in "+p.FuncName(fn), "the comment group reader (behind its re-entrancy latch) takes tokens as they come")
 			continue
 		}
-		in := map[*ssa.BasicBlock]bool{}
-		// optimistic start (true everywhere), entry false; iterate to the greatest fixpoint
-		for _, b := range fn.Blocks {
-			in[b] = true
-		}
-		in[fn.Blocks[0]] = false
-		transfer := func(b *ssa.BasicBlock, st bool, report bool) bool {
-			for _, ins := range b.Instrs {
-				ci, ok := ins.(ssa.CallInstruction)
-				if !ok {
-					continue
+		g.peekFlow(fn, func(ins ssa.Instruction, peeked bool) {
+			if !peeked {
+				r.Fail(ins.Pos(), p.FuncName(fn), "next() on a token that was not peeked", "on some path no peek() comes between the last consumed token and this next(): with nothing in the look-ahead next() reads the lexer directly and returns a comment token as if it were the next token — a document with a comment in that one place is rejected (or mis-parsed), so the result depends on an ignored token")
+			} else {
+				r.OK("next() at "+p.Pos(ins.Pos())+" in "+p.FuncName(fn), "a peek() comes after the last consumption on every path")
+			}
+		})
+	}
+}
+
+// peekFlow: forward must-analysis of "the look-ahead holds a token peeked since the last consumption" over fn (false at
+// entry, greatest fixpoint). report, when given, is called at every call of next() with the state before it. Returns
+// whether the state holds at every return — a helper that always ends on a peek (a loop `for p.peek().Kind != end`)
+// leaves its caller with a peeked token.
+func (g *grammarCtx) peekFlow(fn *ssa.Function, report func(ins ssa.Instruction, peeked bool)) bool {
+	m := g.m
+	if g.endsPeeked == nil {
+		g.endsPeeked = map[*ssa.Function]int{}
+	}
+	in := map[*ssa.BasicBlock]bool{}
+	for _, b := range fn.Blocks {
+		in[b] = true
+	}
+	in[fn.Blocks[0]] = false
+	transfer := func(b *ssa.BasicBlock, st bool, rep bool) bool {
+		for _, ins := range b.Instrs {
+			ci, ok := ins.(ssa.CallInstruction)
+			if !ok {
+				continue
+			}
+			if _, isB := ci.Common().Value.(*ssa.Builtin); isB {
+				continue
+			}
+			callees := g.f.calleesOf[ci]
+			if len(callees) == 0 {
+				if sc := ci.Common().StaticCallee(); sc != nil {
+					callees = []*ssa.Function{sc}
 				}
-				if _, isB := ci.Common().Value.(*ssa.Builtin); isB {
-					continue
-				}
-				callees := g.f.calleesOf[ci]
-				if len(callees) == 0 {
-					if sc := ci.Common().StaticCallee(); sc != nil {
-						callees = []*ssa.Function{sc}
+			}
+			for _, cal := range callees {
+				switch {
+				case cal == m.peek:
+					st = true
+				case cal == m.next:
+					if rep && report != nil {
+						report(ins, st)
 					}
-				}
-				for _, cal := range callees {
-					switch {
-					case cal == m.peek:
-						st = true
-					case cal == m.next:
-						if report && !st {
-							r.Fail(ins.Pos(), p.FuncName(fn), "next() on a token that was not peeked", "on some path no peek() comes between the last consumed token and this next(): with nothing in the look-ahead next() reads the lexer directly and returns a comment token as if it were the next token — a document with a comment in that one place is rejected (or mis-parsed), so the result depends on an ignored token")
-						} else if report {
-							r.OK("next() at "+p.Pos(ins.Pos())+" in "+p.FuncName(fn), "a peek() comes after the last consumption on every path")
+					st = false
+				case inParserPkg(m, cal) && len(cal.Blocks) > 0 && cal != fn:
+					// a helper: what it leaves behind on every path
+					switch g.endsPeeked[cal] {
+					case 0:
+						g.endsPeeked[cal] = 1 // in progress: assume nothing
+						if g.peekFlow(cal, nil) {
+							g.endsPeeked[cal] = 2
+						} else {
+							g.endsPeeked[cal] = 3
 						}
-						st = false
-					case inParserPkg(m, cal) && g.f.mayConsume[cal]:
+					}
+					switch {
+					case g.endsPeeked[cal] == 2:
+						st = true
+					case g.f.mayConsume[cal]:
 						st = false
 					}
-				}
-			}
-			return st
-		}
-		for changed := true; changed; {
-			changed = false
-			for _, b := range fn.Blocks {
-				if b == fn.Blocks[0] {
-					continue
-				}
-				st := len(b.Preds) > 0
-				for _, pd := range b.Preds {
-					if !transfer(pd, in[pd], false) {
-						st = false
-					}
-				}
-				if st != in[b] {
-					in[b] = st
-					changed = true
+				case inParserPkg(m, cal) && g.f.mayConsume[cal]:
+					st = false
 				}
 			}
 		}
+		return st
+	}
+	for changed := true; changed; {
+		changed = false
 		for _, b := range fn.Blocks {
-			transfer(b, in[b], true)
+			if b == fn.Blocks[0] {
+				continue
+			}
+			st := len(b.Preds) > 0
+			for _, pd := range b.Preds {
+				if !transfer(pd, in[pd], false) {
+					st = false
+				}
+			}
+			if st != in[b] {
+				in[b] = st
+				changed = true
+			}
 		}
 	}
+	all := true
+	nret := 0
+	for _, b := range fn.Blocks {
+		out := transfer(b, in[b], true)
+		if _, isRet := b.Instrs[len(b.Instrs)-1].(*ssa.Return); isRet {
+			nret++
+			if !out {
+				all = false
+			}
+		}
+	}
+	return all && nret > 0
 }
 
 // sharedBufferWindows (C17.R5): a window of a buffer the parser keeps in its own struct (a shared
